@@ -192,7 +192,10 @@ def main():
         ],
         "checks": checks,
         "not_applicable": na,
-        "notes": "All checks: ./check <ID> --tier quick|thorough; exit 0 held / 1 VIOLATION / 2 machinery failure. See DESIGN.md.",
+        "notes": "All checks: ./check <ID> --tier quick|thorough [--selftest] [--replay f]; exit 0 held / 1 VIOLATION / 2 machinery failure. "
+                 "Growth check outside the listed properties: ./check SESSION (spec/EoSession.tla replayed through the real primitives; evidence in "
+                 "evidence_growth/). known_findings.json: one recorded finding (C16, F5) and seven fixed: lines for the fix: commits made to /repo. "
+                 "seeded/: 80 confirmed breaking changes with RESULTS.tsv. See DESIGN.md section 10.",
     }
     (VERIF / "MANIFEST.json").write_text(json.dumps(man, indent=1) + "\n")
     print(f"MANIFEST.json: {len(checks)} checks, {len(na)} not claimed")
